@@ -183,8 +183,9 @@ class Explorer:
             excluded, chosen = d[1], d[2]
         else:
             excluded, chosen = [], None
-        for p in excluded:
-            f = z3.Not(pat_formula(p))
+        # ``excluded`` holds ready-made z3 formulas Not(pattern): replays rebuild structurally identical
+        # (hash-consed) condition terms because fresh-variable naming restarts on every path.
+        for f in excluded:
             self.solver.add(f)
             self.pc.append(f)
         if chosen is None:
@@ -195,7 +196,7 @@ class Explorer:
                 raise Infeasible()
             m = self.solver.model()
             chosen = [bool(z3.is_true(m.eval(c, model_completion=True))) for c in sym]
-            self.todo.append(self.prefix[: self.pos] + [("p", excluded + [chosen], None)])
+            self.todo.append(self.prefix[: self.pos] + [("p", excluded + [z3.Not(pat_formula(chosen))], None)])
             self.prefix = self.prefix[: self.pos] + [("p", excluded, chosen)]
         self.pos += 1
         f = pat_formula(chosen)
@@ -271,7 +272,7 @@ class Explorer:
         s.set("timeout", timeout_ms or self.timeout_ms)
         s.add(*cons)
         s.add(*extra)
-        if exp_axioms and self.exp_mode == "uf":
+        if exp_axioms and self.exp_mode == "uf" and CTX.exp_apps:
             apps = find_exp_apps(cons + extra)
             if apps:
                 s.add(*xf.exp_axioms(apps))
@@ -310,7 +311,7 @@ class Explorer:
             self.solver.pop()
 
     def path_summary(self, limit=6, width=90):
-        return [str(c)[:width] for c in self.pc[:limit]]
+        return [c.sexpr()[:width].replace("\n", " ") for c in self.pc[:limit]]
 
 
 def model_env(model):
